@@ -35,9 +35,17 @@
     'decreases': '(g_LP - C19_POFF(path)) + (g_LQ - C19_POFF(prefix))'},
  ],
  'solver': 'cadical',
+ 'fallback': 'ghost-free',
  'witness': {'unwind': 9},
 } @*/
 #include "c19_path_contracts.h"
+#include "c19_path_ref.h"
+#ifdef REPLAY
+/* native run: the helpers are the real ones (under cbmc they are contracts); the header's own path_remove_prefix is renamed away */
+#define path_remove_prefix path_remove_prefix_of_header
+#include <igris/util/pathops.h>
+#undef path_remove_prefix
+#endif
 size_t g_LP, g_LQ;            /* index of the terminator of path / prefix */
 size_t g_cnt, g_done;         /* node pairs compared / consumed (compared equal and left) */
 size_t g_endq;                /* final prefix cursor */
@@ -66,11 +74,17 @@ void harness(void)
 
     __CPROVER_assert(r != NULL && __CPROVER_same_object(r, P) && r >= P && (size_t)(r - P) <= LP, "remove_prefix: result inside path");
     size_t ro = (size_t)(r - P);
+#if !VC_FALLBACK
     __CPROVER_assert(g_endq <= LQ, "remove_prefix: prefix cursor inside prefix");
     if (g_differ)
         __CPROVER_assert(g_done + 1 == g_cnt, "remove_prefix: stopped at the first node pair that differs, all earlier pairs compared equal");
     else
         /* the unrepaired loop runs while EITHER string has bytes left (that is the finding: it then walks on with a NULL cursor); the repaired one while BOTH have */
         __CPROVER_assert(g_done == g_cnt && (KF_C19_path_remove_prefix_null == 0 ? (P[ro] == 0 || Q[g_endq] == 0) : (P[ro] == 0 && Q[g_endq] == 0)), "remove_prefix: otherwise every pair compared equal and the strings are exhausted");
+#endif
+#if defined(REPLAY) && KF_C19_path_remove_prefix_null == 0 && KF_C19_path_single_dot_overread == 0
+    /* native only (under cbmc the helpers are abstract contracts): the position reached by the reference walk */
+    __CPROVER_assert(ro == c19_ref_remove_prefix(P, Q), "remove_prefix: position of the component-wise reference walk (direct reference, native)");
+#endif
     CANARY("remove_prefix end reachable");
 }
